@@ -95,6 +95,10 @@ C01LeavesT == { Leaf1(m, c[1], p, c[2]) : m \in {"r0", "r1"}, c \in C01Chains, p
                \cup { Leaf("r0", "stub", <<Pat(p, Open), Pat(q, <<V("n", 1)>>)>>) : p, q \in PredFam }
                \cup { Leaf("r0", "stub", <<Pat(p, <<V("n", 1)>>), Pat(q, Open), Pat(Arg, <<Seg("panic", "none", 0)>>)>>) : p, q \in PredFam }
 
+\* a small family for three-clause configurations (simulation computes every initial state first)
+C01Leaves3 == { Leaf1("r0", c[1], p, c[2]) : c \in {<<"each", Open>>, <<"some", Open>>, <<"each", <<V("n", 1), V("none", 0)>> >>}, p \in PredFam }
+              \cup { Leaf1("r1", "each", Arg, Open), Leaf1("r1", "some", {0}, Open), Leaf1("r2", "next", Arg, Open) }
+
 \* ---------------- C02: k-th response of a quantifier chain ----------------
 KindsQ == {"val", "answer", "panic", "unmock"}
 KindsT == {"val", "default", "answer", "answer_arc", "panic", "unmock", "dflt"}
@@ -121,6 +125,9 @@ C03LeavesQ == { Leaf1(m, "each", p, c) : m \in {"r0", "r1"}, p \in {{0}, Arg}, c
 C03LeavesT == { Leaf1(m, f, p, c) : m \in {"r0", "r1"}, f \in {"each", "some"}, p \in PredFam \ {{}}, c \in C03Chains }
               \cup { Leaf1("r2", "next", {0}, c) : c \in {<<V("n", 2)>>, Open, <<V("n", 1), V("n", 1)>>} }
               \cup { Leaf("r1", "stub", <<Pat({0}, c), Pat(Arg, d)>>) : c, d \in {<<V("n", 1)>>, <<V("atleast", 1)>>, Open} }
+
+C03Leaves3 == { Leaf1(m, "each", p, c) : m \in {"r0", "r1"}, p \in {{0}, Arg}, c \in {<<V("n", 2)>>, <<V("atleast", 1)>>, <<V("once", 0), V("none", 0)>>} }
+              \cup { Leaf1("r0", "some", {1}, Open), Leaf1("r2", "next", {0}, <<V("n", 2)>>) }
 
 \* ---------------- C04: ordered sequence ----------------
 C04Chains == { Open, <<V("n", 2)>>, <<V("n", 0)>>, <<V("n", 1), V("none", 0)>>, <<Seg("answer", "n", 2)>>, <<V("once", 0), Seg("panic", "once", 0)>> }
